@@ -80,6 +80,7 @@ class Comb:
         self.side_ok = False
         self.zeta_ok = False
         self.gathers: List[Tuple[str, str, T]] = []  # (dest, src, index)
+        self.inplace: List[Tuple[int, str, str]] = []  # gathers that read a buffer the copy loop writes
         self.copy_only = True
         self.where_root = None
 
@@ -190,6 +191,11 @@ def analyse_comb(ctx, fi: FuncInfo) -> Comb:
                                       norm_iter(strip_wrappers(v.args[1])) is norm_iter(index_term)):
                 c.gathers.append((f"{var}[{show(key, maxdepth=1)}]", show(strip_wrappers(v.args[0]), maxdepth=3),
                                   v.args[1]))
+                # the buffer read by the gather must be the pre-reconfiguration one: if the loop that does the copying
+                # also stores into it, slot new_i may already hold a survivor (the comb index can be < i)
+                src = strip_wrappers(v.args[0])
+                if e.loops and any(z.op == "havoc" and len(z.args) > 1 and z.args[0] in {l_[0] for l_ in e.loops} for z in subterms(src)):
+                    c.inplace.append((e.line, var, show(src, maxdepth=2)[:60]))
     R = ev.result(fr)
     if R.op == "tuple" and len(R.args) == 2:
         w_out = strip_wrappers(R.args[0])
@@ -267,6 +273,9 @@ def _copies(ctx, fi: FuncInfo, c: Comb):
         distinct = srcs[0] != srcs[1]
         ctx.ob("PAIR-1", f"{q}: up and down blocks are gathered from their own buffers", distinct,
                f"sources {srcs}", fi)
+    ctx.ob("PAIR-1", f"{q}: the comb copies out of the pre-reconfiguration buffer (source is not written by the copy loop)",
+           not c.inplace, f"in-place gather(s): {c.inplace}" if c.inplace else
+           f"{n_g} gather(s) read buffers the loop does not store into", fi)
     # no arithmetic on walkers on the way out: every store into an output walker buffer is a
     # gather-by-index (optionally .copy()), an allocation (0.0 * x, zeros) or a conversion
     bad = []
@@ -322,6 +331,16 @@ def callers(ctx):
             z_ok = z is not None and z.op == "call" and func_name(z) == "jax.random.uniform"
             ctx.ob("PRNG-1", f"{fi.qualname}: offset is a fresh uniform draw", z_ok,
                    f"zeta = {show(z, maxdepth=2)[:80] if z is not None else '?'}", fi)
+            if z_ok:
+                # one offset for the whole comb: uniform(key) / uniform(key, ()) -- a vector of offsets broadcasts
+                # silently against arange(N) and gives every tooth its own offset
+                _, zp, zk = call_parts(z)
+                shp = zk.get("shape", zp[1] if len(zp) > 1 else None)
+                shp = strip_wrappers(shp) if shp is not None else None
+                scalar = shp is None or (shp.op in ("tuple", "list") and len(shp.args) == 0) or \
+                    (shp.op == "const" and shp.args[0] in ((), None))
+                ctx.ob("SIB-1", f"{fi.qualname}: the offset is one scalar draw shared by every tooth", scalar,
+                       "uniform(key) with the default shape ()" if scalar else f"shape={show(shp)[:40]}", fi)
             w_store = getitem(R, const("walkers")) is getitem(c, const(0))
             wt_store = getitem(R, const("weights")) is getitem(c, const(1))
             ctx.ob("PAIR-1", f"{fi.qualname}: comb outputs stored to their own slots", arg_ok and w_store and wt_store,
